@@ -517,7 +517,8 @@ const TOK_BYTES: [u8; 14] = [b'a', b' ', b'\n', b'\r', 0xc3, 0xa9, 0xe2, 0x80, 0
 const WORDS: [&str; 18] = [
     "a", "b", "foo", "bar", "baz", "é", "héllo", "日本", "x1", "e\u{301}", "👍🏽", "🇩🇪", "don't", "3.14", "\u{200d}", "\0", "wörld", "ab",
 ];
-const SEPS: [&str; 10] = [" ", " ", "  ", "\t", "\u{a0}", "\u{3000}", "\u{2028}", "\u{85}", ",", ". "];
+const SEPS: [&str; 16] =
+    [" ", " ", " ", "  ", "\t", "\u{a0}", "\u{3000}", "\u{2028}", "\u{85}", ",", ". ", "\x0b", "\x0c", "\x1c", "\u{1680}", "\u{202f}"];
 const NLS: [&str; 5] = ["\n", "\n", "\r\n", "\r", "\n\n"];
 const BAD: [&[u8]; 9] =
     [&[0xff], &[0xc3], &[0xe2, 0x80], &[0xf0, 0x9f], &[0xed, 0xa0, 0x80], &[0xc0, 0xaf], &[0x80], &[0xf0, 0x9f, 0x98], &[0xe2, 0x82]];
@@ -1058,9 +1059,9 @@ fn kind_units(rng: &mut Rng, kind: Kind, n: usize) -> Vec<Vec<u8>> {
             }
             Kind::Words => {
                 if i % 2 == 0 {
-                    ["a", "bb", "é", "x1", "foo"][rng.below(5)].to_string()
+                    ["a", "bb", "é", "x1", "foo", "a\x1cb", "\x1f", "\u{200b}"][rng.below(8)].to_string()
                 } else {
-                    [" ", "  ", "\n", "\t", "\u{a0}"][rng.below(5)].to_string()
+                    [" ", "  ", "\n", "\t", "\u{a0}", "\x0b", "\x0c", "\u{85}", "\u{2028}", "\u{3000}", "\r"][rng.below(11)].to_string()
                 }
             }
             Kind::Chars => ["a", "b", "c", "é", "\n", " ", "😀"][rng.below(7)].to_string(),
@@ -2538,6 +2539,65 @@ pub fn suite_remap(ctx: &mut Ctx) {
         ctx.count("remap.random_pairs");
         remap_case(ctx, Kind::DIFF[(i % 5) as usize], ALGS[((i / 5) % 3) as usize], mode, &concat(&base), &concat(&new));
     }
+    // both sides of the size at which TextDiff maps tokens to integers (100 tokens): long runs of identical
+    // tokens with an edit inside a run (the shape on which prefix/suffix handling can overlap)
+    let nlong = if ctx.tier == Tier::Quick { 90u64 } else { 600 };
+    for i in 0..nlong {
+        if !ctx.take() {
+            continue;
+        }
+        let mut rng = case_rng(ctx, 0x10c6e, i);
+        let kind = Kind::DIFF[(i % 5) as usize];
+        let (old, new) = long_run_pair(&mut rng, kind);
+        let mode = if i % 2 == 0 { Mode::Str } else { Mode::Bytes };
+        ctx.count("remap.long_run_pairs");
+        remap_case(ctx, kind, ALGS[((i / 5) % 3) as usize], mode, &old, &new);
+    }
+}
+
+/// about 90..160 tokens made of long runs of two or three distinct units, and a copy with one to three
+/// edits inside the runs (drop / duplicate / replace one unit)
+fn long_run_pair(rng: &mut Rng, kind: Kind) -> (Vec<u8>, Vec<u8>) {
+    let mut units: Vec<Vec<u8>> = match kind {
+        Kind::Lines | Kind::Lnl => vec![b"\n".to_vec(), b"x\n".to_vec(), b"y y\n".to_vec()],
+        Kind::Words | Kind::UWords => vec![b"a".to_vec(), b" ".to_vec(), b"b".to_vec()],
+        Kind::Chars | Kind::Graphemes => vec![b"a".to_vec(), b"b".to_vec(), "é".as_bytes().to_vec()],
+    };
+    if rng.chance(1, 2) {
+        units.truncate(2);
+    }
+    let total = rng.range(90, 160);
+    let mut seq: Vec<usize> = vec![];
+    while seq.len() < total {
+        let u = match kind {
+            // words: alternate word / space so that identical tokens stay separate tokens
+            Kind::Words | Kind::UWords => seq.len() % 2,
+            _ => rng.below(units.len()),
+        };
+        let run = match kind {
+            Kind::Words | Kind::UWords => 1,
+            _ => rng.range(1, 70),
+        };
+        for _ in 0..run {
+            seq.push(u);
+        }
+    }
+    let mut new = seq.clone();
+    for _ in 0..rng.range(1, 3) {
+        let at = rng.below(new.len());
+        match rng.below(3) {
+            0 => {
+                new.remove(at);
+            }
+            1 => {
+                let u = new[at];
+                new.insert(at, u);
+            }
+            _ => new[at] = rng.below(units.len()),
+        }
+    }
+    let cat = |v: &[usize]| -> Vec<u8> { v.iter().flat_map(|&u| units[u].iter().copied()).collect() };
+    (cat(&seq), cat(&new))
 }
 
 /* ------------------------------------------------------------------------------------------ */
